@@ -15,7 +15,9 @@ Three monitors:
      the node list exactly.
 '''
 
+import os
 import copy
+import shutil
 
 from ..core       import Result, digest
 from ..harness    import rp, ru, rps, rpc
@@ -137,6 +139,101 @@ def _nontrivial(sim):
     return len(sim.granted) >= 2
 
 
+# ------------------------------------------------------------------------------
+# (a') bursts: many tasks end together, more releases are pending than the
+#      scheduling loop takes in one pass (its bulk limits are crossed)
+#
+def burst_history(ctx, res, rng, idx):
+
+    from ..schedsim import Sim
+    n_tasks = rng.choice([520, 600, 700, 1100])
+    nodes   = rng.choice([1, 2, 4])
+    cpn     = -(-n_tasks // nodes) + rng.choice([0, 3])
+    lay = {'nodes': nodes, 'cores_per_node': cpn, 'gpus_per_node': 0,
+           'lfs': 0, 'mem': 0, 'blocked_cores': [], 'blocked_gpus': [],
+           'agent_nodes': 0}
+    tasks = [{'uid': 'b.%04d' % i, 'ranks': 1, 'cores_per_rank': 1,
+              'gpus_per_rank': 0., 'lfs_per_rank': 0, 'mem_per_rank': 0,
+              'ranks_per_node': None, 'priority': 0, 'tags': {},
+              'named_env': '', 'app_slots': False} for i in range(n_tasks)]
+    case = {'layout': lay, 'scheduler': 'CONTINUOUS', 'scattered': True,
+            'random_bulk': False, 'seed': rng.randint(0, 2 ** 30),
+            'tasks': tasks, 'kind': 'burst',
+            'chunk': rng.choice([1, 7, 64, 100])}
+    light = {k: v for k, v in case.items() if k != 'tasks'}
+    light['n_tasks'] = n_tasks
+
+    wd = os.path.join(ctx.workdir or os.getcwd(), 'burst')
+    os.makedirs(wd, exist_ok=True)
+    cons = Conservation(res)
+    sim  = None
+    try:
+        sim  = Sim(wd, case, observers=[])
+        uids = [t['uid'] for t in tasks]
+        for i in range(0, n_tasks, 200):
+            sim.arrive(uids[i:i + 200])
+            sim.intake()
+        for _ in range(40):
+            sim.iteration(1)
+            if len(sim.granted) == n_tasks:
+                break
+        res.count('burst_histories')
+        res.count('burst_grants', len(sim.granted))
+        if len(sim.granted) != n_tasks:
+            res.inconc('burst: only %d of %d tasks were placed'
+                       % (len(sim.granted), n_tasks))
+            return
+
+        # all of them end before the loop looks at its release queue again
+        order = list(sim.held)
+        rng.shuffle(order)
+        k = case['chunk']
+        for i in range(0, len(order), k):
+            sim.complete_bulk(order[i:i + k])
+        sim.pump()
+        for _ in range(12):
+            sim.iteration(1)
+            sim.pump()
+        res.count('burst_releases', len(sim.unsched_published))
+
+        pub, proc = sim.unsched_published, sim.unsched_processed
+        ctxv = {'case': light, 'published': len(pub), 'processed': len(proc)}
+        lost = sorted(set(pub) - set(proc))
+        if lost:
+            res.violation('released-never-processed',
+                          '%d of %d tasks gave their resources back but the '
+                          'scheduler never released them (e.g. %s); %d cores '
+                          'stay busy' % (len(lost), len(pub), lost[:3],
+                                         len(lost)), ctxv)
+            return
+        dup = sorted(u for u in set(proc) if proc.count(u) > 1)
+        if dup:
+            res.violation('released-more-often-than-asked',
+                          '%d tasks released more than once (e.g. %s)'
+                          % (len(dup), dup[:3]), ctxv)
+            return
+        child = sim.pair.child
+        for now, init in zip(child.nodes, sim.init_nodes):
+            for key in ('cores', 'gpus', 'lfs', 'mem'):
+                if now[key] != init[key]:
+                    busy = sum(1 for c in now['cores'] if c != rpc.FREE)
+                    res.violation('capacity-not-restored/%s' % key,
+                                  'burst: node %s %s differs from its initial '
+                                  'value (%d cores busy)' % (now['index'], key,
+                                                             busy), ctxv)
+                    return
+        if child._active_cnt != 0:
+            res.violation('active-count-drift', 'idle pilot after a burst but '
+                          '_active_cnt == %d' % child._active_cnt, ctxv)
+    except (TimeoutError, RuntimeError) as e:
+        res.violation('history-stuck', 'burst: %r' % e, {'case': light})
+    finally:
+        if sim:
+            sim.close()
+        os.chdir(ctx.workdir or '/')
+        shutil.rmtree(wd, ignore_errors=True)
+
+
 def run(ctx):
     res = Result()
     cons = list()
@@ -150,6 +247,13 @@ def run(ctx):
 
     run_histories(ctx, res, ctx.n(2400, 60000), mk, after=after,
                   nontrivial=_nontrivial, salt='c03')
+
+    rng = ctx.rng('burst')
+    for i in range(ctx.n(16, 160)):
+        burst_history(ctx, res, rng, i)
+        res.evaluations += 1
+        if len(res.violations) > 40:
+            break
 
     rng = ctx.rng('exec')
     saved = c07.judge
